@@ -249,7 +249,7 @@ typedef struct {
 	void **prev, **cbbuf, **tab;
 	void **allcb; size_t nallcb, capallcb;
 	void **dups; size_t ndups, capdups;
-	int in_nested;
+	int in_nested, claim0;
 	int complete_prev, in_finish, cur_call, rs;
 	gf2_peel_t *peel;
 	const char *cname;
@@ -455,6 +455,7 @@ void run_history(const block_t *b, const hist_t *hi, unsigned mon, hres_t *res)
 		/* the decoder feeds itself the last repair symbol when it claims it is null: counts as received */
 		UINT32 isnull = 0;
 		LIB_ENTER(); st = of_get_control_parameter(H.ses, OF_CRTL_LDPC_STAIRCASE_IS_LAST_SYMBOL_NULL, &isnull, sizeof isnull); LIB_LEAVE();
+		H.claim0 = st == OF_STATUS_OK ? (int)(isnull != 0) : -1;
 		if (st == OF_STATUS_OK && isnull) { H.received[n - 1] = 1; if (H.peel) gf2_peel_add(H.peel, n - 1); rep_count("sessions_with_self_injected_null_symbol", 1); }
 	}
 	if (hi->cbmode) {
@@ -583,6 +584,12 @@ void run_history(const block_t *b, const hist_t *hi, unsigned mon, hres_t *res)
 			if (H.avail[i] && !H.submitted[i] && H.cbcount[i] != 1) { snprintf(key, sizeof key, "cb-missing:%s:%s", H.cname, H.stage[i] == 2 ? "finish" : "submission"); if (!H.cbcount[i]) rep_viol(key, "source %u available, never submitted, %u callbacks", i, H.cbcount[i]); }
 			if (H.cbcount[i] && !H.avail[i]) { snprintf(key, sizeof key, "cb-without-symbol:%s", H.cname); rep_viol(key, "callback for source %u but the symbol is not reported available", i); }
 		}
+	}
+	if (c->codec == 3 && H.claim0 >= 0 && (ON("C15") || ON("C10"))) {
+		/* what a session says about its last repair symbol is a property of its parameters: the same answer at the end of its life */
+		UINT32 isnull = 7; LIB_ENTER(); st = of_get_control_parameter(H.ses, OF_CRTL_LDPC_STAIRCASE_IS_LAST_SYMBOL_NULL, &isnull, sizeof isnull); LIB_LEAVE();
+		if (st != OF_STATUS_OK || (int)(isnull != 0) != H.claim0) rep_viol("null-claim-changed-during-session", "IS_LAST_SYMBOL_NULL was %d after of_set_fec_parameters and is %d (status %d) at the end of the session (k=%u r=%u N1=%u seed=%u, finish=%d)", H.claim0, (int)(isnull != 0), st, c->k, c->r, c->N1, c->seed, hi->finish);
+		rep_count("null_claims_compared_at_both_ends_of_a_session", 1);
 	}
 release:
 	/* hand-over: decoded source symbols the library allocated belong to the application from now on */
